@@ -50,7 +50,7 @@ def run_obligations(obs, tier, seed, jobs=None):
         time.sleep(0.02)
         for i in list(running):
             p, pc, t0, ob = running[i]
-            hard = ob.hard_timeout_s if tier == 'quick' else max(ob.hard_timeout_s, getattr(ob, 'hard_timeout_thorough_s', 3600))
+            hard = ob.hard_timeout_s if tier == 'quick' else max(ob.hard_timeout_s, getattr(ob, 'hard_timeout_thorough_s', float(os.environ.get('SYMX_THOROUGH_HARD_S', '1500'))))
             if pc.poll():
                 try:
                     results[i] = pc.recv()
